@@ -145,8 +145,9 @@ class Effects:
 
     # --------------------------------------------------------- direct effects
     def direct(self, fi: FuncInfo) -> list[tuple[ast.AST, Effect]]:
-        if fi.qualname in self._direct:
-            return self._direct[fi.qualname]
+        key = (fi.qualname, id(fi.node))  # a flattened view of the same function is a different unit
+        if key in self._direct:
+            return self._direct[key]
         out: list[tuple[ast.AST, Effect]] = []
         env = self.model.local_env(fi)
 
@@ -230,7 +231,7 @@ class Effects:
             if isinstance(n, ast.Call) and kwarg(n, "echo") is not None and isinstance(kwarg(n, "echo"), ast.Constant) and kwarg(n, "echo").value is True:  # type: ignore[union-attr]
                 add(n, "STDOUT")
         out.sort(key=lambda t: (getattr(t[0], "lineno", 0), getattr(t[0], "col_offset", 0)))
-        self._direct[fi.qualname] = out
+        self._direct[key] = out
         return out
 
     # ------------------------------------------------------- may summaries
